@@ -42,7 +42,9 @@ func newC19World() *c19World {
 	}
 	w.auth = a
 	w.authSrv = httptest.NewServer(a.Handler)
-	y := "- service: svca\n  default:\n    from: " + hostA + "\n    to: {{backend:a}}\n    options:\n      allowed_email_domains:\n        - corp.test\n"
+	y := "- service: svca\n  default:\n    from: " + hostA + "\n    to: {{backend:a}}\n    options:\n      allowed_email_domains:\n        - corp.test\n" +
+		// one upstream (one provider instance) serving several hosts
+		"- service: tenants\n  default:\n    from: '^tenant-(a|b)\\.sso\\.test$'\n    to: {{backend:a}}\n    type: rewrite\n    options:\n      allowed_email_domains:\n        - corp.test\n"
 	p, err := harness.NewProxyEnv(harness.ProxyOpts{YAML: y, Backends: []string{"a"}, TemplateVars: map[string]string{}, Valid: w.V,
 		ProviderExternal: "https://" + harness.AuthHost, ProviderInternal: w.authSrv.URL})
 	if err != nil {
@@ -196,7 +198,14 @@ func c19Run(c *fw.Ctx) {
 		}
 		method := []string{"GET", "POST"}[x.Choose("method", 2)]
 		visit := visits[x.Choose("sign-out-request-headers", len(visits))]
+		// the host the visit is made to, and whether somebody signed out a moment earlier on a sibling host of
+		// the same upstream or on this very host
+		hostV := []string{hostA, "tenant-a.sso.test"}[x.Choose("host", 2)]
+		earlier := []string{"", "tenant-b.sso.test", hostV}[x.Choose("earlier-sign-out-on", 3)]
 		setNow(0)
+		if earlier != "" {
+			w.proxy.Do(harness.NewRequest("GET", "/oauth2/sign_out", earlier, nil, nil))
+		}
 		target := "/oauth2/sign_out"
 		if pn != "" {
 			target += "?" + pn + "=" + url.QueryEscape(pv)
@@ -206,7 +215,7 @@ func c19Run(c *fw.Ctx) {
 		}
 		future := harness.At(time.Hour)
 		sealed := w.proxy.Seal(&sessions.SessionState{ProviderSlug: w.auth.Slug, ProviderType: "sso", AccessToken: "at", RefreshToken: "rt", LifetimeDeadline: future, RefreshDeadline: future, ValidDeadline: future,
-			Email: "bob@corp.test", User: "bob", AuthorizedUpstream: hostA})
+			Email: "bob@corp.test", User: "bob", AuthorizedUpstream: hostV})
 		h := http.Header{"Cookie": {harness.CookieName + "=" + sealed}}
 		for k, v := range visit.h {
 			h[k] = v
@@ -216,15 +225,15 @@ func c19Run(c *fw.Ctx) {
 			h.Set("Content-Type", "application/x-www-form-urlencoded")
 			body = []byte(pn + "=" + url.QueryEscape(pv))
 		}
-		r := w.proxy.Do(harness.NewRequest(method, target, hostA, h, body))
+		r := w.proxy.Do(harness.NewRequest(method, target, hostV, h, body))
 		if !owned {
 			return
 		}
-		d := map[string]interface{}{"request": method + " " + target, "headers": visit.name, "status": r.Status, "location": r.Location}
+		d := map[string]interface{}{"request": method + " " + target, "host": hostV, "earlier_sign_out_on": earlier, "headers": visit.name, "status": r.Status, "location": r.Location}
 		viol := func(key, what string) {
 			c.Res.Violate(fw.Violation{Property: "C19", Key: "C19/proxy-sign-out-visit/" + key, What: what, Scenario: "proxy-sign-out-visit", Choices: x.Choices(), Detail: d})
 		}
-		c.Res.Outcome(fmt.Sprintf("visit|%s|%s|%s|%s|%d", pn, pv, method, visit.name, r.Status))
+		c.Res.Outcome(fmt.Sprintf("visit|%s|%s|%s|%s|%s|%s|%d", pn, pv, method, visit.name, hostV, earlier, r.Status))
 		if ck := r.Cookie(harness.CookieName); ck == nil || ck.Value != "" {
 			viol("keeps-cookie", "the proxy's sign-out response does not clear the session cookie")
 		}
@@ -235,13 +244,16 @@ func c19Run(c *fw.Ctx) {
 		}
 		q := lu.Query()
 		ret := q.Get("redirect_uri")
+		if n := len(q["redirect_uri"]); n != 1 {
+			viol("several-return-addresses", fmt.Sprintf("the sign-out URL carries %d redirect_uri parameters %q (the signature can cover one)", n, q["redirect_uri"]))
+		}
 		var ts int64
 		fmt.Sscan(q.Get("ts"), &ts)
 		if q.Get("sig") != harness.Sign(ret, ts, harness.ClientSecret) || ts != harness.NowUnix() {
 			viol("return-address-not-correctly-signed", fmt.Sprintf("sig %q / ts %q do not sign the return address %q at the current time", q.Get("sig"), q.Get("ts"), ret))
 		}
-		if ok, h1, h2 := bothOnHost(ret, "http", hostA); !ok {
-			viol("return-address-on-another-host/"+pn, fmt.Sprintf("the signed return address %q resolves to %q (RFC 3986) / %q (browser), the request was made to %q", ret, h1, h2, hostA))
+		if ok, h1, h2 := bothOnHost(ret, "http", hostV); !ok {
+			viol("return-address-on-another-host/"+pn, fmt.Sprintf("the signed return address %q resolves to %q (RFC 3986) / %q (browser), the request was made to %q", ret, h1, h2, hostV))
 		} else {
 			c.Res.Count("positive_sign_out_visits_signed_for_same_host", 1)
 		}
@@ -429,7 +441,7 @@ func init() {
 		Level: "model_checking",
 		Rule: "every history of the family: IdP issuing {a refresh token, none}; full browser login through the REAL proxy -> REAL authenticator (back channel over loopback) -> scripted stateful IdP (9 requests), optionally (an hour later, so that the authenticator's own cookie is past its lifetime while the proxy session lives on) a token refresh through the authenticator and a further revalidation of the proxy session, sign-out at the proxy (plain, or carrying X-Forwarded-Host naming a foreign / sibling host, or X-Forwarded-Proto), GET of the signed authenticator URL, POST confirmation with {session cookie, no cookie, forged cookie} x signed URL {fresh, replayed after 1 s, replayed after 301 s, tampered signature, tampered return address, re-signed out-of-domain return address} x IdP revoke outcome {200, 400, 401, 403, 404, 429, 500, 503, connection reset, first request 503 and any later one 200}, then reuse of the saved proxy cookie after {10 s, validity TTL + 10 s (thorough: token lifetime + 100 s, one day)}; " +
 			"oracle = combined-state model: proxy clears its cookie and sends the browser to the authenticator with a return address on the same host that the authenticator's own checks accept; the authenticator clears its cookie and returns the browser only after the IdP accepted the revocation, otherwise >= 500 page and cookie kept; nothing happens for an invalid signed URL; after a successful revoke the old proxy cookie is refused at the first request whose revalidation is due; " +
-			"(proxy-sign-out-visit) the visit alone x query parameter {none, rd, redirect_uri, redirect, return_to, next, url, continue} x value {scheme-relative sibling / foreign host, absolute foreign, backslash form, a path, bare host, percent-encoded slashes, scheme without slashes, triple slash} x {GET, POST with the same form body} x the header variants: cookie cleared, 302 to the authenticator's sign_out, sig = HMAC over (return address, ts = now), return address on the request host under both URL readings; " +
+			"(proxy-sign-out-visit) the visit alone x query parameter {none, rd, redirect_uri, redirect, return_to, next, url, continue} x value {scheme-relative sibling / foreign host, absolute foreign, backslash form, a path, bare host, percent-encoded slashes, scheme without slashes, triple slash} x {GET, POST with the same form body} x the header variants x host {a simple route, one host of a rewrite-routed upstream} x an earlier sign-out {none, on a sibling host of the same upstream, on this host}: cookie cleared, 302 to the authenticator's sign_out, exactly one return address, sig = HMAC over (return address, ts = now), return address on the request host under both URL readings; " +
 			"(provider-revocation) GoogleProvider.Revoke and OktaProvider.Revoke at their own API against 12 identity-provider answers x session {with, without} refresh token: success may be reported only for a 200 or the documented already-revoked answer; states = histories executed (each on the real code, so also traces_validated_against_impl), transitions = requests; distinct_nontrivial = distinct (revoke outcome, confirmation kind, URL kind, reuse gap, status, cleared, revoked, served)",
 		Assumptions:    []string{"Okta flavour; the IdP is scripted but stateful (a revoked token is reported inactive afterwards)", "virtual clock shared by both services"},
 		QuickBudget:    5 * time.Minute,
